@@ -2,11 +2,12 @@
 # For every stored seeded change: apply it to /repo itself, run the quick check of its property, undo it
 # straight afterwards (the procedure of the brief).  Prints one line per change.
 cd /verif || exit 2
-for d in seeded/C*-[AB]; do
+mkdir -p /dev/shm/fv_seed_evidence
+for d in seeded/C*-[ABCD]; do
   name=$(basename "$d"); prop=${name%-*}
   if ! git -C /repo apply --check "/verif/$d/patch.diff" 2>/dev/null; then echo "$name: patch does not apply"; continue; fi
   git -C /repo apply "/verif/$d/patch.diff"
-  out=$(VERIF_SEED=${VERIF_SEED:-1} ./bin/check "$prop" --tier quick 2>&1); rc=$?
+  out=$(FV_EVIDENCE_DIR=/dev/shm/fv_seed_evidence VERIF_SEED=${VERIF_SEED:-1} ./bin/check "$prop" --tier quick 2>&1); rc=$?
   git -C /repo checkout -- .
   echo "$name: check $prop exit=$rc $(echo "$out" | grep -c '^VIOLATION') violation lines"
 done
